@@ -23,7 +23,7 @@ EXTERNAL_SCHEMES = ("http", "https", "mailto", "javascript", "data", "ftp", "tel
 class _Collector(HTMLParser):
     def __init__(self):
         super().__init__(convert_charrefs=True)
-        self.links: list[tuple[str, str, str, int]] = []  # tag, attr, url, line
+        self.links: list[tuple[str, str, str, int, str]] = []  # tag, attr, url, line, quote character
         self.ids: set[str] = set()
         self.dup_ids: set[str] = set()
         self.stack: list[str] = []
@@ -31,6 +31,7 @@ class _Collector(HTMLParser):
 
     def handle_starttag(self, tag, attrs):
         line = self.getpos()[0]
+        raw = None
         for k, v in attrs:
             if v is None:
                 continue
@@ -39,9 +40,19 @@ class _Collector(HTMLParser):
                     self.dup_ids.add(v)
                 self.ids.add(v)
             if k in URL_ATTRS:
-                self.links.append((tag, k, v, line))
+                if raw is None:
+                    raw = self.get_starttag_text() or ""
+                self.links.append((tag, k, v, line, attr_quote(raw, k)))
 
     handle_startendtag = handle_starttag
+
+
+def attr_quote(raw_tag: str, attr: str) -> str:
+    """The character that delimits the value of `attr` in the start tag as written: ' or " or "" (unquoted).
+    (Who wrote a link can be told from it: FortranBase.__str__ writes <a href='..'>, the markdown
+    serialiser and the templates write href="..".)"""
+    m = re.search(r"[\s\"']" + re.escape(attr) + r"\s*=\s*([\"']?)", raw_tag, re.I)
+    return m.group(1) if m else ""
 
 
 def scan_html(text: str):
@@ -92,8 +103,8 @@ class Site:
                 text = (root / r).read_text(encoding="utf-8", errors="replace")
                 links, ids, _dups = scan_html(text)
                 self.ids[r] = ids
-                for tag, attr, url, line in links:
-                    self.links.append({"page": r, "tag": tag, "attr": attr, "url": url, "line": line})
+                for tag, attr, url, line, q in links:
+                    self.links.append({"page": r, "tag": tag, "attr": attr, "url": url, "line": line, "q": q})
             elif r == "search/search_database.json":
                 text = (root / r).read_text(encoding="utf-8")
                 prefix = "var tipuesearch = "
@@ -103,7 +114,7 @@ class Site:
                     self.search_urls.append(node.get("url"))
                     # the search page (search.html at the root) resolves these
                     self.links.append({"page": "search.html", "tag": "search-index", "attr": "url",
-                                       "url": node.get("url"), "line": 0})
+                                       "url": node.get("url"), "line": 0, "q": ""})
 
     def ids_of(self, rel: str) -> set[str]:
         if rel not in self.ids:
